@@ -1191,6 +1191,8 @@ def translate_aes_open(pe):
     if len(fn) != 1:
         raise TranslateError("_open_pdf_reader not found")
     is_patch = lambda st: isinstance(st, ast.Expr) and _call_name(st.value) == "patch_pypdf_fallback_aes" and not st.value.args
+    if any(is_patch(st) for st in ast.parse(src).body):
+        return "AtImport"         # module-level statement: installed once when pdf_extractor is imported
     body = fn[0].body
     seen_reader = False
     for st in body:
@@ -1802,7 +1804,7 @@ def gen_files(ctx, pe, aes):
     txt += f"(* pdf_extractor._ttf_get_glyph_features: _FONT_CACHE key = {fk} *)\n"
     txt += f"Definition font_key_has_gids : bool := {'true' if fk in ('keyed', 'nocache') else 'false'}.\n\n"
     txt += f"(* pdf_extractor._open_pdf_reader: AES fallback installation = {aes_mode} *)\n"
-    txt += f"Definition aes_install_mode : aes_install := {aes_mode if aes_mode in ('Eager', 'OnEncrypted') else 'Lazy'}.\n\n"
+    txt += f"Definition aes_install_mode : aes_install := {aes_mode if aes_mode in ('Eager', 'OnEncrypted', 'AtImport') else 'Lazy'}.\n\n"
     txt += "(* functools.lru_cache capacities *)\n"
     txt += "Definition lru_caps : list nat := [" + "; ".join(str(int(c or 0)) for c in caps.values()) + "].\n"
     ctx.gen_write("Gen/C15Skeleton.v", txt)
@@ -2476,6 +2478,14 @@ def _run(ctx, tmproot, tmpdocs):
         "oracles: pypdf (wrapper is result-neutral apart from the digit map), mimetypes.guess_type / router functions as pure "
         "functions (lru sites), _expand_key (proved in C20), TTF parsing (`features`)",
         "isolated baselines = fresh interpreter per document (testing); digests = sha1 of sorted-key to_json()",
+        "store model (C15_no_other_shared_state): its hypothesis is the ast inventory Gen/C15Inventory.v; 'never mutated' is decided "
+        "per identifier name over all library modules (aliasing through function arguments is not tracked - the ResidueMonitor "
+        "re-checks contents at run time)",
+        "NOT modelled (third-party / runtime): codecs search-function list (not inspectable from Python; inventory only); whole-"
+        "extraction overlaps are forced probabilistically (switch interval 1e-6), controlled line-level schedules exist only for the "
+        "char-map patch, _get_round_keys, _get_type_registry and omml_to_latex; lru_cache internals (CPython C code, thread-safe by "
+        "its own lock) are an oracle - the memo model covers their observable behaviour; PDF crypt-filter variants that need "
+        "re-encryption (/Identity, distinct /StmF and /StrF) are not generated",
     ]
     ctx.assumptions += ["CPython 3.12 GIL; pypdf 6.5.0 API (build_char_map in pypdf._page)", "threading.Lock (non re-entrant)"]
     import pypdf._crypt_providers._fallback as fb
@@ -2490,7 +2500,7 @@ def _run(ctx, tmproot, tmpdocs):
         "C15_font_cache_keyed_transparent", "C15_aes_patch_residue_refuted", "C15_aes_result_history_refuted",
         "C15_aes_result_history_independent", "C15_aes_guard_complete_independent", "C15_aes_guard_incomplete_refuted",
         "C15_type_registry_inplace_refuted", "C15_type_registry_publish_complete", "C15_no_other_shared_state",
-        "C15_unclassified_shared_state_refuted"])
+        "C15_unclassified_shared_state_refuted", "C15_aes_residue_by_extraction_refuted", "C15_aes_at_import_residue_free"])
     ctx.prove("C15/Inst.v", ["Gen/C15Skeleton.vo", "C15/Corr.vo", "C15/ProofsPatch.vo"], expected=[
         "C15_skeleton_is_locked_protocol", "C15_skeleton_restored", "C15_skeleton_inside_wrapped",
         "C15_single_patch_target", "C15_skeleton_safe_k2", "C15_skeleton_safe_k3_after_history"])
